@@ -16,4 +16,6 @@ for p in "$@"; do
 done
 git -C /repo checkout -- .
 rm -rf /verif/replays
+# the evidence files were rewritten by runs against the changed tree: put the committed ones back
+git -C /verif checkout -- evidence 2>/dev/null
 exit $caught
